@@ -87,7 +87,9 @@ def _run_check(ctx, engine):
     if not build.driver_ok and getattr(engine, "NEEDS_DRIVER", True):
         raise MachineryError("Lean driver does not build:\n" + build.log[-3000:])
     # 1. audit
-    hits = common.grep_forbidden()
+    own = ([f"Props.{prop}", "Props.Gen", "Basic", "Generated"] + list(getattr(engine, "MODULES", []))
+           + [f"Props.{d}" for d in getattr(engine, "THEOREM_DEPS", [])])
+    hits = common.grep_forbidden(own)
     if hits:
         raise MachineryError(f"forbidden tokens in Lean sources: {hits}")
     broken = broken_obligations(build, engine, prop)
